@@ -92,6 +92,11 @@ CHECKS = {
         text="TLA+ model of the zip extraction worker pool (rendezvous dispatch, resume register, crash at any step, restart with the surviving folder and resume file) model-checked for 2..3 workers, 3..4 entries and 1..2 crashes: after the final run every entry is complete. Real CompressZip/ExtractZip with 1, 2, 3, 4, 8, 16 and -1 workers and CompressTar/ExtractTar on trees with nested and empty dirs, empty files, symlinks and many small files: TLC checks tree equality and that the reported counts equal the entries; resumable extractions are killed at chosen instants (resume file, then a copy of the destination folder, taken from inside OnEntryDone while the other workers keep running; reads of a large first entry slowed down so that later entries complete first) and restarted with the surviving resume file - the tree must be complete; a -race build repeats a subset and race reports with archiver frames are reported.",
         note="kill = (resume file read first, then folder copy), at least as complete as the folder at the read; tar: round trip only.",
         technique="TLA+ model checking (TLC) + trace validation of real round trips and kill/restart executions against the TLA+ property; Go race detector for the counter clause"),
+    "C10": dict(
+        level="model_checking", ref="DESIGN.md §4 C10",
+        text="TLA+ model of the stream readers at wire level (Malformed.tla: protobuf field -> value, a message is decoded as whatever the reader expects next; one action per ReadMessage of patcher.Resume/skipFile/processRsync/processBsdiff, rediff analyzePatch+Optimize, ReadSignature+ComputeHashInfo, overlay Patch; every subscript taken with a value from the stream is an explicit precondition) model-checked over all single (thorough: double) mutations of a plain and an optimized patch, a signature and an overlay stream - every field to {-1, 0, 1, n-1, n, huge, foreign type codes}, dropped and duplicated messages incl. end markers - times every truncation point: no panic state, every step consumes a message or ends. Every input TLC explored is serialised with the real wire writer (uncompressed, gzip, brotli) and run through the real readers (fresh bowl, overlay bowl, empty whitelist, optimizer, signature, overlay) under recover() and a watchdog; seeded multi-mutations with extreme values over universes from the real differ/optimizer and every byte truncation of the valid streams are recorded too; TLC runs the machine on each recorded message table: the real reader must return (error or completion), and the model's error/completed prediction is compared (drift).",
+        note="exempt as the property says: malformed containers, message lengths beyond the stream; a hang is a 60 s watchdog expiry.",
+        technique="TLA+ model checking (TLC) + replay of every model-explored input on the real readers + trace validation of recorded executions against the TLA+ reader machines"),
     "C15": dict(
         level="model_checking", ref="DESIGN.md §4 C15",
         text="TLA+ model of the per-file diff pipeline (multiread over two io.Pipes fed by an upstream with arbitrarily short reads, diff and sign consumers, task group) model-checked over every chunking of a short stream and every interleaving: each consumer receives the whole stream in order (its output is a function of the bytes only), no wedge, the group returns only after all three tasks, completion under fairness; the optimizer's target choice with the tally visited in any order is a function of the input (Rediff.tla); the bsdiff scanner pipeline forwards matches in block order (BsdiffPipe.tla). Each build pair (incl. ties between differently named old files) is diffed R times under GOMAXPROCS 1..16 with seeded short reads / yields and its patch optimized R times: TLC requires equal patch, signature and optimized digests. The race-freedom clause is decided by a -race build of the same driver (reports with a wharf frame).",
